@@ -17,14 +17,14 @@ def clone_machine(m):
     n.steps, n.trace = m.steps, list(m.trace)
     return n
 
-def feasible(conds):
+def feasible(conds, timeout=5000):
     s = Solver()
-    s.set("timeout", 5000)
+    s.set("timeout", timeout)
     for c in conds:
         s.add(c)
     return s.check() != unsat
 
-def explore(m, binary, start, stops, hooks=None, max_paths=400, max_steps=4000):
+def explore(m, binary, start, stops, hooks=None, max_paths=400, max_steps=4000, check=True, check_timeout=5000):
     """All paths from start until an address in stops (or return to caller: pc None). Returns [(machine, end_pc)]."""
     out = []
     work = [(m, start)]
@@ -59,7 +59,9 @@ def explore(m, binary, start, stops, hooks=None, max_paths=400, max_steps=4000):
                     m2 = clone_machine(mm)
                     m2.pc_cond.append(Not(c))
                     mm.pc_cond.append(c)
-                    ok1, ok2 = feasible(mm.pc_cond), feasible(m2.pc_cond)
+                    m2.trace.append("0")
+                    mm.trace.append("1")
+                    ok1, ok2 = (feasible(mm.pc_cond, check_timeout), feasible(m2.pc_cond, check_timeout)) if check else (True, True)
                     if ok2:
                         work.append((m2, fall))
                     if not ok1:
@@ -540,8 +542,20 @@ def toplevel_obligations(binary, fam):
     return obls, {"spec_mask": spec_mask}
 
 def build_obligations(binary):
+    for sname in ["__find_odd_backslash_sequences", "__find_quote_mask_and_bits", "__find_whitespace_and_structurals",
+                  "__finalize_structurals", "__find_newline_delimiters"]:
+        binary.load_symbol(sname + ".abi0")
+        binary.load_symbol(sname + "_avx512.abi0")
+    for sname in ["__init_odd_backslash_sequences", "__init_quote_mask_and_bits", "__init_whitespace_and_structurals", "__init_newline_delimiters"]:
+        binary.load_symbol(sname + "_avx512.abi0")
     obls = flatten_obligations(binary)
     for fam in ("avx2", "avx512"):
         o, _ = toplevel_obligations(binary, fam)
         obls += o
     return obls
+
+
+TASK_PROPS = set("C01 C02 C05 C06 C07 C08".split())
+
+def tasks():
+    return [("kernels2", "build_obligations", {})]
